@@ -37,6 +37,7 @@
 #include "src/interpret.h"
 #include "lib/efuns/call_out.h"
 #include "lpc/functional.h"
+#include "simul_efun.h"
 #include "src/main.h"
 #include "src/backend.h"
 #include "rc.h"
@@ -87,14 +88,27 @@ static const char *oname (object_t * ob)
   return s;
 }
 
+/* names of the two vital objects: "ok" = the name it had when the case started, "blank" = the empty string */
+static char *vital_name0[2];
+static const char *vital_name (object_t * ob, int which)
+{
+  if (!ob || !ob->name)
+    return "none";
+  if (!vital_name0[which])
+    vital_name0[which] = strdup (ob->name);
+  if (!ob->name[0])
+    return "blank";
+  return strcmp (ob->name, vital_name0[which]) ? "other" : "ok";
+}
+
 static void snapshot (char *buf, size_t n)
 {
-  snprintf (buf, n, "sp=%ld csp=%ld cg=%s co=%s po=%s prog=%s ct=%d fp=%ld pc=%s fio=%d vio=%d ctx=%d ld=%d rd=%s cgs=%d qv=%s",
+  snprintf (buf, n, "sp=%ld csp=%ld cg=%s co=%s po=%s prog=%s ct=%d fp=%ld pc=%s fio=%d vio=%d ctx=%d ld=%d rd=%s cgs=%d qv=%s mn=%s sn=%s",
             (long) (sp - start_of_stack), (long) (csp - control_stack), oname (command_giver), oname (current_object),
             oname (previous_ob), current_prog ? current_prog->name : "0", caller_type,
             fp ? (long) (fp - start_of_stack) : -1L, pc ? "set" : "null", function_index_offset, variable_index_offset,
             verif_error_context_depth (), verif_load_object_depth (), oname (verif_restrict_destruct ()),
-            verif_command_giver_stack_depth (), last_verb ? "set" : "0");
+            verif_command_giver_stack_depth (), last_verb ? "set" : "0", vital_name (master_ob, 0), vital_name (simul_efun_ob, 1));
 }
 
 /* ---- capture of the VL lines written to stderr (a regular file in the case child) ---------------- */
@@ -488,6 +502,15 @@ static int c05_cmd (char *line)
   char copy[8192];
   char *tok[16];
   int n;
+  static int file_checked = 0;
+
+  if (!file_checked)
+    {
+      /* an earlier case of this run broke the master FILE on purpose and did not get to put it back (it crashed) */
+      file_checked = 1;
+      if (access ("c05/master.good", F_OK) == 0)
+        (void) rename ("c05/master.good", "c05/master.c");
+    }
 
   if (!strncmp (line, "src ", 4))
     {
@@ -675,6 +698,7 @@ static int c05_cmd (char *line)
       /* the side state the probe prints (heart beat of t) is the one prep() sets up */
       if (t)
         vh_apply_str (t, "prep", 0, 0, 0, 0);
+      command_giver = 0;	/* (prep may enable commands in t; backend() starts from clear_state() anyway) */
     }
   if (!strcmp (tok[0], "injectco") && n == 1)
     {
